@@ -638,7 +638,7 @@ func (repo *GoGitRepo) StoreCommit(treeHash Hash, parents ...Hash) (Hash, error)
 // StoreSignedCommit will store a Git commit with the given Git tree. If signKey is not nil, the commit
 // will be signed accordingly.
 func (repo *GoGitRepo) StoreSignedCommit(treeHash Hash, signKey *openpgp.Entity, parents ...Hash) (Hash, error) {
-	cfg, err := repo.r.Config()
+	cfg, err := repo.identConfig()
 	if err != nil {
 		return "", err
 	}
@@ -695,6 +695,26 @@ func (repo *GoGitRepo) StoreSignedCommit(treeHash Hash, signKey *openpgp.Entity,
 	}
 
 	return Hash(hash.String()), nil
+}
+
+// identConfig returns the configuration of the repository with the names and e-mail addresses
+// of the author and of the committer cleaned the way git does (ident.c): without '<', '>' and
+// line feeds, which would make the author and committer lines of a commit unparsable
+// (git fsck: badDate, badName, badEmail).
+func (repo *GoGitRepo) identConfig() (*config.Config, error) {
+	cfg, err := repo.r.Config()
+	if err != nil {
+		return nil, err
+	}
+	for _, s := range []*string{&cfg.Author.Name, &cfg.Author.Email, &cfg.Committer.Name, &cfg.Committer.Email} {
+		*s = strings.Map(func(r rune) rune {
+			if r == '<' || r == '>' || r == '\n' {
+				return -1
+			}
+			return r
+		}, *s)
+	}
+	return cfg, nil
 }
 
 func (repo *GoGitRepo) ResolveRef(ref string) (Hash, error) {
